@@ -1420,6 +1420,13 @@ func (e *env) fullShell() {
 		if c.Junk == "several" {
 			e.rawJunk()
 		}
+		if c.Junk == "several" && c.Hold {
+			// (the case in ten whose junk stays connected: the same requests left hanging
+			// and the same crowd as when the junk comes before the real shell)
+			e.bodiedRequests("")
+			e.requestsInProgress()
+			e.crowd(330 + e.rng.IntN(60))
+		}
 	}
 	// pre-attach traffic: lines can always be typed (they queue or reach the
 	// attached input); tokens need the output half.
